@@ -58,6 +58,8 @@ type FuncContract struct {
 	ignore    []string // callees whose contracts are not used in this body
 	only      []string // if non-empty: the only callees whose contracts are used in this body
 	theories  []string // built-in theories switched on for this body ("numerals")
+	safetyOnly bool // keep only panic-freedom obligations
+	standalone bool // verified on its own; ignored at call sites
 	opaque    []string // callees treated as unknown code (never expanded, contract not used)
 	dbonly    []string // callees assumed to change only database buckets and Go maps (results arbitrary)
 	cbObserves map[string]string // callback <param> observes <ghost>
@@ -376,7 +378,7 @@ func installUniverse() {
 
 var clauseKinds = map[string]bool{"guard": true, "callback": true, "step": true, "requires": true, "ensures": true, "invariant": true, "decreases": true,
 	"modifies": true, "props": true, "trusted": true, "pure": true, "inline": true, "unroll": true, "lemma": true,
-	"assume": true, "nopanic": true, "dead": true, "expand": true, "ignore": true, "only": true, "assert": true, "heapframe": true, "skip": true, "dbonly": true, "theory": true, "opaque": true}
+	"assume": true, "nopanic": true, "dead": true, "expand": true, "ignore": true, "only": true, "assert": true, "heapframe": true, "skip": true, "dbonly": true, "theory": true, "opaque": true, "standalone": true, "safetyonly": true}
 
 var headRe = regexp.MustCompile(`^func\s+(.+)$`)
 var scopeRe = regexp.MustCompile(`^(loop|closure|if)#(\d+)\s+(.*)$`)
@@ -1583,6 +1585,15 @@ func (p *Program) fillContract(fc *FuncContract, clauses []*rawClause, body *ast
 		case "theory":
 			// theory numerals: the generator's lemmas about decimal numerals are added at string operations of this body
 			fc.theories = append(fc.theories, strings.Fields(rc.text)...)
+		case "safetyonly":
+			// safetyonly: only the panic-freedom obligations of this body are kept (callee preconditions, frames and the
+			// like are not checked): a thin safety-only contract
+			fc.safetyOnly = true
+		case "standalone":
+			// standalone: the body is verified against this contract, but call sites do not use it (they treat the
+			// function as they would without a contract: expanded when small, unknown code otherwise).  Used for the
+			// thin safety-only contracts generated by `govc sweep -emit`, so that adding them cannot change any other proof.
+			fc.standalone = true
 		case "opaque":
 			// opaque <func>...: calls of these functions are neither expanded from source nor replaced by a contract:
 			// arbitrary results, everything may change (used for goroutine hand-shakes over channels in lemma-level contracts)
